@@ -637,7 +637,7 @@ func main() {
 		cases = append(cases, generate(o)...)
 	}
 	extra := map[string]any{"note": "cases 0-3 are the corpus: C11-a witness (twice), C11-b witness schedule, C11-c witness"}
-	if err := gen.WriteCases(o, "C11", "From Verif Require Import RoleTree.", "c11_case", "report11", cases, extra); err != nil {
+	if err := gen.WriteCases(o, "C11", "From Verif Require Import Common RoleTree.", "c11_case", "report11", cases, extra); err != nil {
 		panic(err)
 	}
 }
